@@ -55,6 +55,16 @@ def with_kwargs(fn):
     return fn
 
 
+class Deque(list):
+    """collections.deque: a list with `popleft` / `appendleft` (hooks of `collections.deque` return it)."""
+
+    def popleft(self):
+        return self.pop(0)
+
+    def appendleft(self, x):
+        self.insert(0, x)
+
+
 class KeysView(tuple):
     """dict.keys(): iterates in insertion order like the dict, compares and combines like a set."""
 
@@ -988,6 +998,10 @@ class PyEval(MiniEval):
                     return getattr(recv, m)(A()[0])
                 except ValueError:
                     raise Raised("value not in list", "ValueError") from None
+            if isinstance(recv, Deque) and m in ("popleft", "appendleft") and not node.keywords:
+                if m == "popleft" and not recv:
+                    raise Raised("pop from an empty deque", "IndexError")
+                return getattr(recv, m)(*A())
             if isinstance(recv, list) and m in ("insert", "remove", "clear", "reverse", "copy") and not node.keywords:
                 try:
                     return getattr(recv, m)(*A())
